@@ -161,7 +161,7 @@ PROPS = {
         assumptions=["fragments are identified by text and position; two input fragments with the same text at the same position are indistinguishable for the tie"],
     ),
     "C03": dict(
-        gen=["globals"],
+        gen=["globals", "maporder"],
         race=True,
         trusted=[
             "the statement 'no state is shared between calls' is decided on the source: tools/gotrans (generator globals) parses every non-test file of every library package of /repo and lists the package-level variables that are assigned, incremented, appended to, have an element or field written or their address taken outside init (GenGlobals.mutable_globals) and those on which methods are called (globals_with_method_calls); the theorems C03_no_package_level_variable_is_written_outside_init and C03_only_the_detector_registry_has_methods_called are closed by reflexivity on the regenerated file, so a new mutable package variable breaks them; the harness then replays the cross-parse scenario of the property (operand-only content stream, then another) as the failing input",
